@@ -30,6 +30,8 @@ struct GroupCfg {
     fam_mask: u64,
     addpath: u8,
     gr: bool,
+    /// LLGR stale time for the group's families (0 = none)
+    llgr: u32,
 }
 
 #[derive(Clone, Debug)]
@@ -48,6 +50,9 @@ struct StaticCfg {
     plimit: u32,
     /// families of the graceful-restart capability (its own, or the group's when inherited)
     gr_mask: u64,
+    /// LLGR stale time (0 = none) and the families it is advertised for
+    llgr: u32,
+    llgr_mask: u64,
 }
 
 /// A neighbour configured through the gRPC API (AddPeer), optionally as a member of a peer group
@@ -64,6 +69,7 @@ struct ApiPeerCfg {
     rs: bool,
     rr: bool,
     group: i64,
+    llgr: u32,
 }
 
 fn addr_pool() -> Vec<&'static str> {
@@ -103,7 +109,7 @@ impl Check for Admission {
             .map(|g| {
                 let np = if rng.chance(1, 8) { 5 } else { 4 };
                 jobj! {"prefix" => *rng.pick(&prefixes[..np]), "asn" => *rng.pick(&[0u64, 65100 + g, 65100 + g]), "hold" => *rng.pick(&[0u64, 30, 240]),
-                       "rs" => rng.chance(1, 5), "rr" => false, "fams" => *rng.pick(&[0u64, 1, 3]), "addpath" => rng.below(4), "gr" => rng.chance(1, 3)}
+                       "rs" => rng.chance(1, 5), "rr" => false, "fams" => *rng.pick(&[0u64, 1, 3]), "addpath" => rng.below(4), "gr" => rng.chance(1, 3), "llgr" => *rng.pick(&[0u64, 0, 3600])}
             })
             .collect();
         let n_api = rng.range(0, 2);
@@ -115,7 +121,7 @@ impl Check for Admission {
                 let asn = if g_asn != 0 && rng.chance(1, 3) { 0 } else { *rng.pick(&[65000u64, 65021 + k, 65021 + k]) };
                 let fams = *rng.pick(&[0u64, 1, 3, 5]);
                 jobj! {"addr" => format!("10.0.2.{}", k + 1), "asn" => asn, "hold" => *rng.pick(&[0u64, 0, 9, 90]), "fams" => fams, "addpath" => if fams != 0 { rng.below(4) } else { 0 },
-                       "gr" => fams != 0 && rng.chance(1, 3), "plimit" => if fams != 0 && rng.chance(1, 2) { rng.range(1, 5) } else { 0 }, "rs" => rng.chance(1, 6), "rr" => asn == 65000 && rng.coin(), "group" => group}
+                       "gr" => fams != 0 && rng.chance(1, 3), "llgr" => if fams != 0 { *rng.pick(&[0u64, 0, 100]) } else { 0 }, "plimit" => if fams != 0 && rng.chance(1, 2) { rng.range(1, 5) } else { 0 }, "rs" => rng.chance(1, 6), "rr" => asn == 65000 && rng.coin(), "group" => group}
             })
             .collect();
         let pool = addr_pool();
@@ -134,11 +140,11 @@ impl Check for Admission {
                 9 => ops.push(jarr!["api-del", rng.below(n_api.max(1))]),
                 11 => {
                     let fams = *rng.pick(&[0u64, 1, 3]);
-                    ops.push(jarr!["grp-upd", rng.below(n_groups.max(1)), *rng.pick(&[0u64, 30, 240]), fams, rng.below(4), rng.chance(1, 3)]);
+                    ops.push(jarr!["grp-upd", rng.below(n_groups.max(1)), *rng.pick(&[0u64, 30, 240]), fams, rng.below(4), rng.chance(1, 3), *rng.pick(&[0u64, 0, 3600, 7200])]);
                 }
                 10 => {
                     let fams = *rng.pick(&[0u64, 1, 3, 5]);
-                    ops.push(jarr!["api-upd", rng.below(n_api.max(1)), *rng.pick(&[0u64, 0, 9, 90]), fams, rng.below(4), rng.chance(1, 3), if rng.chance(1, 2) { rng.range(1, 5) } else { 0 }]);
+                    ops.push(jarr!["api-upd", rng.below(n_api.max(1)), *rng.pick(&[0u64, 0, 9, 90]), fams, rng.below(4), rng.chance(1, 3), if rng.chance(1, 2) { rng.range(1, 5) } else { 0 }, *rng.pick(&[0u64, 0, 100, 200])]);
                 }
                 7 => ops.push(jarr!["dial", rng.below(n_static), rng.below(4), *rng.pick(&[0u64, 1, 3, 5, 15]), rng.below(4), rng.chance(1, 3)]),
                 _ => ops.push(jarr!["wait", *rng.pick(&[10u64, 4000])]),
@@ -157,7 +163,7 @@ impl Check for Admission {
 
     fn info(&self) -> CheckInfo {
         CheckInfo {
-            rule: "1-3 static neighbours (eBGP / iBGP / RR client / RS client / confed member, admin-down flags, hold 0/9/90/180, family sets, add-path modes, GR) and 0-3 peer groups with dynamic prefixes (nested and overlapping IPv4, IPv6, 0.0.0.0/0); connections from 11 source addresses inside and outside them; ops connect (with a drawn remote capability list: family set, add-path mode 0-3, GR), complete the handshake, close, open a second connection in the same direction, operator disable/enable, waits, `api-add` / `api-upd` / `api-del` (0-2 further neighbours configured, re-configured and removed through the real AddPeer / UpdatePeer / DeletePeer handlers, 2 of 3 as members of a named peer group whose AS, hold time, families, add-path and route-server flag they inherit where they have none of their own, with graceful restart and per-family prefix limits of their own), `grp-upd` (UpdatePeerGroup with another hold time, family set, add-path mode, graceful restart; dynamic neighbours created afterwards are judged against the new values), and `dial`: the remote side of a non-passive neighbour listens and takes the daemon's own outgoing connection, in one third of the cases with an operator task that disables the neighbour at the instant the TCP handshake completes (after the connect task queued the socket, before the dispatch loop took it). Oracle on the wire and on Global: a connection is served (OPEN sent) iff the reference admission predicate holds, otherwise closed before any OPEN byte; the OPEN's AS (confederation id towards non-members), hold time, router id and capability list (families, add-path, graceful restart with its time and families, 4-octet AS) equal the neighbour's or group's configuration; the prefix limits in the peer record equal the configured ones; role read back from the peer record equals the reference; both negotiate(a,b)/negotiate(b,a) give mirror-image parameters; a dynamic neighbour's record disappears when its last connection ends. non-trivial = at least one dynamic neighbour was created or one connection was refused".into(),
+            rule: "1-3 static neighbours (eBGP / iBGP / RR client / RS client / confed member, admin-down flags, hold 0/9/90/180, family sets, add-path modes, GR) and 0-3 peer groups with dynamic prefixes (nested and overlapping IPv4, IPv6, 0.0.0.0/0); connections from 11 source addresses inside and outside them; ops connect (with a drawn remote capability list: family set, add-path mode 0-3, GR), complete the handshake, close, open a second connection in the same direction, operator disable/enable, waits, `api-add` / `api-upd` / `api-del` (0-2 further neighbours configured, re-configured and removed through the real AddPeer / UpdatePeer / DeletePeer handlers, 2 of 3 as members of a named peer group whose AS, hold time, families, add-path and route-server flag they inherit where they have none of their own, with graceful restart and per-family prefix limits of their own), `grp-upd` (UpdatePeerGroup with another hold time, family set, add-path mode, graceful restart; dynamic neighbours created afterwards are judged against the new values), and `dial`: the remote side of a non-passive neighbour listens and takes the daemon's own outgoing connection, in one third of the cases with an operator task that disables the neighbour at the instant the TCP handshake completes (after the connect task queued the socket, before the dispatch loop took it). Oracle on the wire and on Global: a connection is served (OPEN sent) iff the reference admission predicate holds, otherwise closed before any OPEN byte; the OPEN's AS (confederation id towards non-members), hold time, router id and capability list (families, add-path, graceful restart with its time and families, LLGR with its families and stale times, 4-octet AS) equal the neighbour's or group's configuration; the prefix limits in the peer record equal the configured ones; role read back from the peer record equals the reference; both negotiate(a,b)/negotiate(b,a) give mirror-image parameters; a dynamic neighbour's record disappears when its last connection ends. non-trivial = at least one dynamic neighbour was created or one connection was refused".into(),
             components_real: vec!["accept_connection, Global::add_peer, PeerParams::{build,build_local_cap}, Peer::peer_role, PeerSession::run (delete-on-disconnect)".into(), "packet::{IpNet::contains, PeerCodec::negotiate}".into(), "fsm::PeerFsm (effective send-max)".into(), "GrpcService::{disable_peer,enable_peer}".into()],
             components_stubbed: vec!["TCP (the remote address is whatever the scenario says), clock, listener loop, remote speakers".into()],
             assumptions: vec!["where several dynamic prefixes match, any matching group may be chosen (the statement does not pick one)".into()],
@@ -176,7 +182,7 @@ fn contains(prefix: &str, addr: &IpAddr) -> bool {
     }
 }
 
-fn afi_safis_msg(fam_mask: u64, addpath: u8, gr: bool, plimit: u32) -> Vec<api::AfiSafi> {
+fn afi_safis_msg(fam_mask: u64, addpath: u8, gr: bool, plimit: u32, llgr: u32) -> Vec<api::AfiSafi> {
     fams_of(fam_mask)
         .iter()
         .map(|f| api::AfiSafi {
@@ -184,6 +190,7 @@ fn afi_safis_msg(fam_mask: u64, addpath: u8, gr: bool, plimit: u32) -> Vec<api::
             add_paths: Some(api::AddPaths { config: Some(api::AddPathsConfig { receive: addpath & 1 != 0, send_max: if addpath & 2 != 0 { 2 } else { 0 } }), state: None }),
             mp_graceful_restart: if gr { Some(api::MpGracefulRestart { config: Some(api::MpGracefulRestartConfig { enabled: true }), state: None }) } else { None },
             prefix_limits: if plimit > 0 { Some(api::PrefixLimit { family: Some(crate::convert::family_to_api(*f)), max_prefixes: plimit, shutdown_threshold_pct: 0 }) } else { None },
+            long_lived_graceful_restart: if llgr > 0 { Some(api::LongLivedGracefulRestart { config: Some(api::LongLivedGracefulRestartConfig { enabled: true, restart_time: llgr }), state: None }) } else { None },
             ..Default::default()
         })
         .collect()
@@ -194,7 +201,7 @@ fn api_group_msg(name: &str, g: &GroupCfg) -> api::PeerGroup {
     api::PeerGroup {
         conf: Some(api::PeerGroupConf { peer_group_name: name.to_string(), peer_asn: g.asn, ..Default::default() }),
         timers: Some(api::Timers { config: Some(api::TimersConfig { hold_time: g.hold, ..Default::default() }), state: None }),
-        afi_safis: afi_safis_msg(g.fam_mask, g.addpath, g.gr, 0),
+        afi_safis: afi_safis_msg(g.fam_mask, g.addpath, g.gr, 0, g.llgr),
         route_server: Some(api::RouteServer { route_server_client: g.rs, secondary_route: false }),
         graceful_restart: if g.gr { Some(api::GracefulRestart { enabled: true, restart_time: 77, notification_enabled: true, ..Default::default() }) } else { None },
         ..Default::default()
@@ -202,7 +209,7 @@ fn api_group_msg(name: &str, g: &GroupCfg) -> api::PeerGroup {
 }
 
 fn api_peer_msg(a: &ApiPeerCfg) -> api::Peer {
-    let afi_safis = afi_safis_msg(a.fam_mask, a.addpath, a.gr, a.plimit);
+    let afi_safis = afi_safis_msg(a.fam_mask, a.addpath, a.gr, a.plimit, a.llgr);
     api::Peer {
         conf: Some(api::PeerConf { neighbor_address: a.addr.clone(), peer_asn: a.asn, peer_group: if a.group >= 0 { format!("g{}", a.group) } else { String::new() }, ..Default::default() }),
         timers: Some(api::Timers { config: Some(api::TimersConfig { hold_time: a.hold, ..Default::default() }), state: None }),
@@ -231,6 +238,8 @@ fn effective_cfg(a: &ApiPeerCfg, grp: Option<&GroupCfg>) -> StaticCfg {
         active: false,
         plimit: if own_fams { a.plimit } else { 0 },
         gr_mask: if a.gr && own_fams { a.fam_mask } else { grp.map(|g| g.fam_mask).unwrap_or(0) },
+        llgr: if a.llgr > 0 && own_fams { a.llgr } else { grp.map(|g| g.llgr).unwrap_or(0) },
+        llgr_mask: if a.llgr > 0 && own_fams { a.fam_mask } else { grp.map(|g| g.fam_mask).unwrap_or(0) },
     }
 }
 
@@ -255,6 +264,8 @@ async fn run(case: Json, tol: Tolerate) -> Outcome {
                     active: j.get("active").map(|b| b.as_bool()).unwrap_or(false),
                     plimit: 0,
                     gr_mask: j.i("fams", 0) as u64,
+                    llgr: 0,
+                    llgr_mask: 0,
                 })
                 .collect()
         })
@@ -273,6 +284,7 @@ async fn run(case: Json, tol: Tolerate) -> Outcome {
                     fam_mask: j.i("fams", 0) as u64,
                     addpath: j.i("addpath", 0) as u8,
                     gr: j.get("gr").map(|b| b.as_bool()).unwrap_or(false) && j.i("fams", 0) != 0,
+                    llgr: if j.i("fams", 0) != 0 { j.i("llgr", 0) as u32 } else { 0 },
                 })
                 .collect()
         })
@@ -294,6 +306,7 @@ async fn run(case: Json, tol: Tolerate) -> Outcome {
                     rs: j.get("rs").map(|b| b.as_bool()).unwrap_or(false),
                     rr: j.get("rr").map(|b| b.as_bool()).unwrap_or(false),
                     group: j.i("group", -1),
+                    llgr: j.i("llgr", 0) as u32,
                 })
                 .collect()
         })
@@ -533,6 +546,18 @@ async fn run(case: Json, tol: Tolerate) -> Outcome {
                             fail!("open/graceful-restart-differs-from-configuration", "op {}: OPEN carries {:?}, configured {:?}", opi, got_gr, exp_gr);
                         }
                     }
+                    // long-lived graceful restart: advertised iff configured, per family with its stale time
+                    {
+                        let got_ll: Option<BTreeSet<(u32, u32)>> = o.capability.iter().find_map(|c| if let packet::Capability::LongLivedGracefulRestart(v) = c { Some(v.iter().map(|(f, _, t)| (fam_key(*f), *t)).collect()) } else { None });
+                        let ll_of = |time: u32, mask: u64| if time > 0 && mask != 0 { Some(fams_of(mask).into_iter().map(|f| (fam_key(f), time)).collect::<BTreeSet<(u32, u32)>>()) } else { None };
+                        let exp_ll: Vec<Option<BTreeSet<(u32, u32)>>> = match st {
+                            Some(i) => vec![ll_of(statics[i].llgr, statics[i].llgr_mask)],
+                            None => matching.iter().map(|g| ll_of(g.llgr, g.fam_mask)).collect(),
+                        };
+                        if !exp_ll.contains(&got_ll) {
+                            fail!("open/llgr-differs-from-configuration", "op {}: OPEN carries {:?}, configured {:?}", opi, got_ll, exp_ll);
+                        }
+                    }
                     // role as recorded for the peer
                     if let Some(i) = st {
                         let g = w.global.read().await;
@@ -640,6 +665,7 @@ async fn run(case: Json, tol: Tolerate) -> Outcome {
                     a.addpath = if a.fam_mask != 0 { op.at(4).as_u64() as u8 } else { 0 };
                     a.gr = a.fam_mask != 0 && op.at(5).as_bool();
                     a.plimit = if a.fam_mask != 0 { op.at(6).as_u64() as u32 } else { 0 };
+                    a.llgr = if a.fam_mask != 0 { op.at(7).as_u64() as u32 } else { 0 };
                     let pa = pool.iter().position(|x| x.to_string() == a.addr);
                     if let Some(mut sp) = pa.and_then(|x| conns.remove(&x)) {
                         sp.close();
@@ -693,6 +719,7 @@ async fn run(case: Json, tol: Tolerate) -> Outcome {
                 g2.fam_mask = op.at(3).as_u64();
                 g2.addpath = op.at(4).as_u64() as u8;
                 g2.gr = op.at(5).as_bool() && g2.fam_mask != 0;
+                g2.llgr = if g2.fam_mask != 0 { op.at(6).as_u64() as u32 } else { 0 };
                 let name = format!("g{}", gi);
                 if w.grpc.update_peer_group(tonic::Request::new(api::UpdatePeerGroupRequest { peer_group: Some(api_group_msg(&name, &g2)), ..Default::default() })).await.is_ok() {
                     groups[gi] = g2;
